@@ -109,6 +109,7 @@ type Unit struct {
 	frames     []*FrameSet // active frame scopes (function level first)
 	notes      map[string]bool
 	uncontractedCalls map[string]bool
+	addrMaps          map[string]bool // field maps that hold the address of a struct field somewhere
 	externsUsed  map[string]bool
 	rawSorts     map[string]Sort
 	freeVarPtrs  map[string]freeVarInfo
@@ -132,7 +133,7 @@ func (u *Unit) note(s string) { u.notes[s] = true }
 func (p *Program) NewUnit(fn *ssa.Function, c *Contract) *Unit {
 	u := &Unit{prog: p, fn: fn, contract: c, ctx: NewCtx(), counters: map[string]int{}, mapSorts: map[string]Sort{},
 		entryVals: map[string]Val{}, paramTypes: map[string]types.Type{}, notes: map[string]bool{},
-		uncontractedCalls: map[string]bool{}, subOrigins: map[string]subOrigin{}, rawSorts: map[string]Sort{}, freeVarPtrs: map[string]freeVarInfo{}, externsUsed: map[string]bool{}, specFnsDone: map[string]bool{}, checks: map[string]bool{}}
+		uncontractedCalls: map[string]bool{}, addrMaps: map[string]bool{}, subOrigins: map[string]subOrigin{}, rawSorts: map[string]Sort{}, freeVarPtrs: map[string]freeVarInfo{}, externsUsed: map[string]bool{}, specFnsDone: map[string]bool{}, checks: map[string]bool{}}
 	if fn != nil {
 		u.name = funcKey(fn)
 		if fn.Pkg != nil {
@@ -311,6 +312,37 @@ func isCellAlloc(a *ssa.Alloc) bool {
 		switch r := r.(type) {
 		case *ssa.Store:
 			if r.Addr != a {
+				return false
+			}
+		case *ssa.UnOp:
+			if r.Op != token.MUL {
+				return false
+			}
+		case *ssa.DebugRef:
+		case *ssa.FieldAddr:
+			// a private struct temporary: its fields are only read and written in place
+			if r.X != a || !fieldAddrPrivate(r) {
+				return false
+			}
+		default:
+			return false
+		}
+	}
+	return true
+}
+
+func fieldAddrPrivate(fa *ssa.FieldAddr) bool {
+	if _, ok := ptrElem(fa.X.Type()).Underlying().(*types.Struct); !ok {
+		return false
+	}
+	refs := fa.Referrers()
+	if refs == nil {
+		return false
+	}
+	for _, r := range *refs {
+		switch r := r.(type) {
+		case *ssa.Store:
+			if r.Addr != fa {
 				return false
 			}
 		case *ssa.UnOp:
